@@ -324,11 +324,27 @@ def apply_step(g, st):
         else:
             # the model iterates ascending; remember whether CPython did too
             st['asc'] = bool(sn == sorted(sn) and se == sorted(se))
+        snap = ser_graph(other)
         g.add(other)
+        # "leaves the other graph untouched": full serialisation (dictionary orders, terminals) and object identity
+        return {'other_unchanged': bool(ser_graph(other) == snap), 'shares_objects': bool(shares_objects(g, other))}
     elif k == 'insert_opchain':
         g._insert_opchain(st['nid_start'], st['nid_end'], st['oids'], [dec(c) for c in st['coeffs']], st['qnums'], st['direction'])
     else:
         raise RuntimeError('unknown step ' + k)
+
+
+def shares_objects(g, other):
+    """do the two graphs share node / edge objects or their mutable lists (identity, not equality)"""
+    def objs(x):
+        out = set()
+        for n in x.nodes.values():
+            out.add(id(n)); out.add(id(n.eids[0])); out.add(id(n.eids[1]))
+        for e in x.edges.values():
+            out.add(id(e)); out.add(id(e.nids)); out.add(id(e.opics))
+        out.add(id(x.nid_terminal)); out.add(id(x.nodes)); out.add(id(x.edges))
+        return out
+    return bool(objs(g) & objs(other))
 
 
 def err_kind(ex):
@@ -347,15 +363,19 @@ def impl_rewrite(op):
         return {'ok': False, 'err': err_kind(ex)}
     out = {'ok': True, 'init': graph_state(g), 'steps': []}
     for st in op['steps']:
+        extra = None
         try:
-            with_alarm(3.0, lambda: apply_step(g, st))
+            extra = with_alarm(3.0, lambda: apply_step(g, st))
         except CaseTimeout:
             out['steps'].append({'err': 'fuel'})        # non-termination (cyclic / inconsistent input)
             break
         except (AssertionError, ValueError, KeyError, TypeError, IndexError, RuntimeError) as ex:
             out['steps'].append({'err': err_kind(ex)})
             break
-        out['steps'].append(graph_state(g))
+        stt = graph_state(g)
+        if extra:
+            stt.update(extra)
+        out['steps'].append(stt)
     return out
 
 
@@ -676,7 +696,7 @@ def exhaustive_chain_lists(L, maxchains, nids, coeffs):
             yield [list(c) for c in combo]
 
 
-def gen_layered_graph(rng, L=None, idbase=None, charged=None, maxw=3, dangling=False, twins=None):
+def gen_layered_graph(rng, L=None, idbase=None, charged=None, maxw=3, dangling=False, twins=None, term_twin=None, eidbase=None):
     """
     random consistent layered graph as raw input encoding.
     parallel edges, multi-operator edges (also repeated ids inside one edge and cancelling coefficients),
@@ -686,6 +706,8 @@ def gen_layered_graph(rng, L=None, idbase=None, charged=None, maxw=3, dangling=F
         L = int(rng.integers(1, 5))
     if twins is None:
         twins = bool(rng.random() < 0.5)
+    if term_twin is None:
+        term_twin = bool(rng.random() < 0.12)
     widths = [1] + [int(rng.integers(1, maxw + 1)) for _ in range(L - 1)] + [1]
     nn = sum(widths)
     lo = int(rng.integers(-6, 4)) if idbase is None else idbase
@@ -725,7 +747,7 @@ def gen_layered_graph(rng, L=None, idbase=None, charged=None, maxw=3, dangling=F
         side = int(rng.integers(0, 2))
         pairs = [p for p in pairs if p[1 - side] != v]
     ne = len(pairs)
-    elo = int(rng.integers(-4, 12))
+    elo = int(rng.integers(-4, 12)) if eidbase is None else eidbase
     eids = [int(x) for x in rng.permutation(np.arange(elo, elo + ne + int(rng.integers(0, 4))))[:ne]]
     edges = []
     for eid, (x, y) in zip(eids, pairs):
@@ -769,6 +791,28 @@ def gen_layered_graph(rng, L=None, idbase=None, charged=None, maxw=3, dangling=F
                         opics = [[int(cand[int(rng.integers(0, len(cand)))]), enc(float(rng.choice([0.5, 1.0, 2.0])))]]
                     edges.append([ne2, [v2, e[1][1]] if side == 0 else [e[1][0], v2], opics])
         nn = len(nids)
+    if term_twin:
+        # an unconnected twin of a terminal node: a source node (no incoming edges) copying the start node's
+        # outgoing edge(s), or a sink node copying the end node's incoming edge(s); with a single copied edge the
+        # pair (terminal, twin) is a node-merge candidate in which the terminal must survive
+        for side in ([0, 1] if rng.random() < 0.3 else [int(rng.integers(0, 2))]):
+            tnode = layers[0][0] if side == 0 else layers[-1][0]
+            tes = [e for e in edges if e[1][side] == tnode]
+            if not tes:
+                continue
+            v2 = max(nids) + 1
+            nids.append(v2); qn[v2] = qn[tnode]
+            ne2 = max([e[0] for e in edges])
+            for e in (tes if rng.random() < 0.5 else tes[:1]):
+                ne2 += 1
+                edges.append([ne2, [v2, e[1][1]] if side == 0 else [e[1][0], v2], [list(p) for p in e[2]]])
+            if rng.random() < 0.5:
+                # the twin has a further upstream node of its own (an unconnected chain)
+                v3 = v2 + 1
+                nids.append(v3); qn[v3] = qn[v2]
+                ne2 += 1
+                edges.append([ne2, [v3, v2] if side == 0 else [v2, v3], [[int(rng.integers(0, 3)) if not charged else 0, enc(1.0)]]])
+        nn = len(nids)
     order = [int(i) for i in rng.permutation(len(edges))]
     edges = [edges[i] for i in order]
     nodes = []
@@ -793,7 +837,11 @@ def mergeable_pairs(g):
                     out.append((e1, e2, d, 'parallel'))
                 elif a.opics == b.opics:
                     n1, n2 = g.nodes[a.nids[1 - d]], g.nodes[b.nids[1 - d]]
-                    if len(n1.eids[d]) == 1 and len(n2.eids[d]) == 1 and n1.qnum == n2.qnum:
+                    # (the second edge's upstream node is absorbed: it must not be a terminal node)
+                    # and a terminal node cannot acquire upstream edges
+                    if len(n1.eids[d]) == 1 and len(n2.eids[d]) == 1 and n1.qnum == n2.qnum \
+                            and b.nids[1 - d] not in g.nid_terminal \
+                            and not (n1.nid in g.nid_terminal and n2.eids[1 - d]):
                         out.append((e1, e2, d, 'nodes'))
     return out
 
@@ -834,9 +882,20 @@ def gen_history(rng, maxlen, L=None, allow_bad=True):
                 new += 1
             st = {'k': 'rename_edge', 'cur': int(cur), 'new': int(new)}
         elif r < 0.95:
-            # colliding id ranges on purpose: same id base as the current graph's smallest ids
-            base = min(g.nodes.keys()) + int(rng.integers(-2, 3)) if rng.random() < 0.8 else None
-            other, _, _ = gen_layered_graph(rng, L=L, idbase=base, charged=charged)
+            # id ranges of the operand: 1/3 colliding with the current graph (node and edge ids), 1/3 node ids disjoint
+            # but edge ids colliding, 1/3 completely disjoint (node AND edge ids beyond both ranges)
+            mode = int(rng.integers(0, 3))
+            emax = max(g.edges.keys(), default=0)
+            if mode == 0:
+                base = min(g.nodes.keys()) + int(rng.integers(-2, 3)) if rng.random() < 0.8 else None
+                ebase = None
+            elif mode == 1:
+                base = max(g.nodes.keys()) + 1 + int(rng.integers(0, 3))
+                ebase = min(g.edges.keys(), default=0) + int(rng.integers(-1, 2))
+            else:
+                base = max(g.nodes.keys()) + 1 + int(rng.integers(0, 3))
+                ebase = emax + 1 + int(rng.integers(0, 3))
+            other, _, _ = gen_layered_graph(rng, L=L, idbase=base, charged=charged, eidbase=ebase)
             st = {'k': 'add', 'other': other}
         else:
             st = {'k': 'simplify_step', 'direction': int(rng.integers(0, 2))}
